@@ -12,7 +12,7 @@ CHECKS = {
          "Every string within the edit bound of every seed is classified by the reference well-formedness recogniser; for every string it finds ill-formed the real parser + infoset builder must not answer Ok with empty rest.",
          "Trusts mc/src/model/wf.rs as the definition of XML 1.0 well-formedness for documents without parameter entities; strings using PEs are not judged; only over-acceptance is judged.",
          "DESIGN.md §5 C02"),
- "C03": ("supervised exhaustive sweeps: all token strings up to length L over 18 markup tokens, edit neighbourhoods, unsupported-construct catalogue, hostile shape families with growing sizes; each case in a worker process with crash/hang attribution",
+ "C03": ("supervised exhaustive sweeps: all token strings up to length L (5; thorough 7) over 18 markup tokens, edit neighbourhoods, unsupported-construct catalogue, hostile shape families with growing sizes; each case in a worker process with crash/hang attribution",
          "Every enumerated input is pushed through parse, infoset construction, a full accessor walk, Display and pretty() in supervised worker processes; any panic, abort (stack overflow), hang or super-polynomial time growth is attributed to the exact input.",
          "Time verdicts are caps on user CPU time of the parsing thread with large head-room, reported only when the growth against the previous family member is super-polynomial and reproduces on two more measurements; sizes beyond the listed family sizes are not covered; the worker has the default 8 MiB main-thread stack.",
          "DESIGN.md §5 C03"),
